@@ -69,7 +69,8 @@ Classes(form) == IF form = "bin" THEN {"digit", "af", "AF", "blank", "other", "l
 LegalLead(form, c) == IF form = "bin" THEN c[1] # "blank" /\ \E j \in 1..4 : c[j] \in {"blank", "other", "lowctl"}
                       ELSE /\ (form = "hexlower" => \A j \in 1..4 : c[j] # "AF")
                            /\ (form = "hexupper" => \A j \in 1..4 : c[j] # "af")
-WsPatterns == {"none", "every2", "lines64", "crlf7", "at4", "at5", "at6", "at7", "at9", "tabs3"}
+\* "wide3": three white-space bytes between any two cipher bytes (also in front of the last one)
+WsPatterns == {"none", "every2", "lines64", "crlf7", "at4", "at5", "at6", "at7", "at9", "tabs3", "wide3"}
 Blanks == {"sp", "lf", "crlf", "tabsplf"}
 Trailers == {"zeros", "tokens", "none", "second"}
 \* the white space that ends the last token of the section (a CR LF pair is one line end)
@@ -100,7 +101,7 @@ PickProg == /\ phase = "pick"
                   \* a lone CR before the trailer: a reader that looks for the LF of a CR LF pair may take the
                   \* first character of what follows (this is what the zeros are for): only the zeros may follow
                   /\ (e = "cr" => t \in {"zeros", "none"})
-                  /\ (e # "lf" => (w \in {"none", "lines64", "crlf7"} /\ b = "sp"))
+                  /\ (e # "lf" => (w \in {"none", "lines64", "crlf7", "wide3"} /\ b = "sp"))
                   /\ stim' = [p |-> p, form |-> f, lead |-> DefaultLead(f), ws |-> w, blank |-> b, trailer |-> t, endws |-> e]
             /\ phase' = "start" /\ UNCHANGED s
 PreOf(p) == <<N("before"), I(1), X("def")>> \o PreExtra(p) \o <<X("currentfile"), X("eexec")>>
